@@ -48,7 +48,8 @@ EXPECT_PROBES = ["ps_add", "ps_modify", "ps_delete", "ps_readd", "ps_rename",
                  "ps_rehw", "ps_delete_unknown", "stats_multipart_done",
                  "stats_abandoned", "stats_interleaved", "stats_single",
                  "glued_to_handshake_end", "stats_part_64k",
-                 "second_features_reply_in_handshake"]
+                 "second_features_reply_in_handshake",
+                 "port_view_read_inside_handler"]
 
 MULTI = {W.ST_FLOW: "FlowStatsReceived", W.ST_TABLE: "TableStatsReceived",
          W.ST_PORT: "PortStatsReceived", W.ST_QUEUE: "QueueStatsReceived"}
@@ -359,6 +360,26 @@ def _drive(sim, plan, known, hit):
                       ctx + " (neighbour switch, original_ports)",
                       EthAddr, known, hit, sim, original=True)
 
+  # the view as a PortStatus listener sees it while the event for a
+  # notification is being delivered: that notification is already in it
+  watch = [None]
+  inside = []
+
+  def ps_listener(event):
+    w = watch[0]
+    if w is None or event.connection is not con or inside:
+      return
+    try:
+      _cmp_collection(event.connection.ports, w, "inside a PortStatus "
+                      "handler (port %d, reason %d)"
+                      % (event.ofp.desc.port_no, event.ofp.reason),
+                      EthAddr, known, hit, sim)
+      sim.probes["port_view_read_inside_handler"] += 1
+    except Violation as v:
+      inside.append(v)
+  world.nexus.addListenerByName("PortStatus", ps_listener, priority=-1100)
+  con.addListenerByName("PortStatus", ps_listener, priority=-1100)
+
   def check_stats(ctx):
     got = []
     for e in world.events[ev_base:]:
@@ -456,6 +477,8 @@ def _drive(sim, plan, known, hit):
           if old["hw_addr"] != pd["hw_addr"]:
             sim.probes["ps_rehw"] += 1
         model[no] = dict(pd)
+      if cork[0] is None:
+        watch[0] = {k: dict(v) for k, v in model.items()}
     elif op == "stats":
       xid, stype = st["xid"], st["stype"]
       flags = W.SF_REPLY_MORE if st["more"] else 0
@@ -502,6 +525,9 @@ def _drive(sim, plan, known, hit):
     if cork[0] is not None:
       continue          # (still part of the write that ends the handshake)
     sim.drain()
+    watch[0] = None
+    if inside:
+      raise inside[0]
     peer.take()
     if not lost:
       if peer.eof_from_controller:
